@@ -558,6 +558,88 @@ def in_hypothesis_w(case):
     return True
 
 
+def winfree_s(nodes, T, own):
+    """window-independent for the specification too (Genshi.Incl.winfreeSL): like winfree, and every include -- also an
+    expression-valued one -- is of a text template"""
+    for n in nodes:
+        k = n[0]
+        if k in ('call', 'select'):
+            return False
+        if k == 'elem':
+            if n[1] in T or not winfree_s(n[2], T, own):
+                return False
+        elif k == 'if':
+            if not winfree_s(n[2], T, own):
+                return False
+        elif k == 'for':
+            if not winfree_s(n[3], T, own):
+                return False
+        elif k == 'include':
+            if CLS.get(n[2], own) != 'text':
+                return False
+            if n[3] is not None and not winfree_s(n[3], T, own):
+                return False
+    return True
+
+
+def zone_target_ok_s(case, T, here, own, n):
+    """Genshi.Incl.zoneTargetOkS"""
+    h = n[1][1]
+    if h.startswith('/'):
+        return True
+    f = find_file(case, resolve(here, h))
+    if f is None:
+        return n[3] is None or winfree_s(n[3], T, own)
+    return 'body' not in f or winfree_s(f['body'], T, f['kind'])
+
+
+def zone_free_s(case, nodes, T, here, own, zone=False):
+    """Genshi.Incl.zoneFreeSL: inside a zone no macro call and includes only of window-independent content"""
+    for n in nodes:
+        k = n[0]
+        if k == 'call' and zone:
+            return False
+        if k == 'include':
+            if zone:
+                if n[1][0] == 'static':
+                    if not zone_target_ok_s(case, T, here, own, n):
+                        return False
+                elif CLS.get(n[2], own) != 'text' or (n[3] is not None and not winfree_s(n[3], T, own)):
+                    return False
+            if n[3] is not None and not zone_free_s(case, n[3], T, here, own, False):
+                return False
+        elif k == 'elem':
+            if not zone_free_s(case, n[2], T, here, own, zone or n[1] in T):
+                return False
+        elif k == 'if':
+            if not zone_free_s(case, n[2], T, here, own, zone):
+                return False
+        elif k == 'for':
+            if not zone_free_s(case, n[3], T, here, own, zone):
+                return False
+        elif k == 'def':
+            if not zone_free_s(case, n[2], T, here, own, False):
+                return False
+        elif k == 'match':
+            if not zone_free_s(case, n[2], T, here, own, True):
+                return False
+    return True
+
+
+def in_hypothesis_s(case):
+    """the hypothesis of runtime_eq_spec_zones_partial (Genshi.Incl.inHS with T = all match tags)"""
+    T = case_match_tags(case)
+    for d in case['dirs']:
+        for path, f in d:
+            if 'raw' in f:
+                continue
+            if not zone_free_s(case, f['body'], T, path, f['kind']):
+                return False
+            if f['kind'] == 'text' and not text_ok(f['body']):
+                return False
+    return True
+
+
 def modelled(case):
     """what the Lean model covers: text files that the text syntax can express"""
     for d in case['dirs']:
